@@ -688,16 +688,18 @@ def _set_attr_names(inst, acc):
     return acc
 
 
-def holds_value(inst, path, name):
+def holds_value(inst, path, name, renamed=False, wrapper=False):
     """does the instance hold a non-None value for the attribute the schema reports as missing?
     (then the missing member is not the `None is dropped` phenomenon)"""
     if inst is None or name is None:
         return False
+    if wrapper and isinstance(inst, dict) and "o" in inst and len(inst["o"][1]) == 1:
+        inst = inst["o"][1][0][1]          # compact serialization: the document is the only field's value
     node = _node_at(inst, path)
     if isinstance(node, dict) and "o" in node:
         return any(k == name and v is not None for k, v in node["o"][1])
-    # the path could not be followed (keys renamed by a mapper): look for the attribute anywhere
-    return name in _set_attr_names(inst, set())
+    # keys renamed by a mapper: the path cannot be followed, look for the attribute anywhere
+    return renamed and name in _set_attr_names(inst, set())
 
 
 def has_class_ref(d):
@@ -718,14 +720,16 @@ def admit_key(err, cls=None, inst=None, mapper=None):
         return "enum-mapper-not-applied-to-definitions"
     if err.get("instance") in ("True", "False") and '"boolean"' in json.dumps(err.get("schema")):
         return "raw-boolean-string"
-    if err.get("validator") == "required" and not err.get("branches"):
-        m = re.match(r"'(.*)' is a required property", err["msg"])
-        if m and holds_value(inst, err.get("path") or [], m.group(1)):
-            return "required-member-missing-although-set"
     if cls is not None and (err.get("path") or len(cls["fields"]) == 1):
         fd = cls["fields"][0][1] if len(cls["fields"]) == 1 else dict((n, f) for n, f in cls["fields"]).get(err["path"][0])
         if fd is not None and "nested-field-wrapper" in inexact_features(fd, set()):
             return "nested-field-wrapper"
+    if err.get("validator") == "required" and not err.get("branches"):
+        m = re.match(r"'(.*)' is a required property", err["msg"])
+        wrapper = cls is not None and len(cls["fields"]) == 1 and set(cls["required"]) == {cls["fields"][0][0]} \
+            and cls.get("addl", True) is False
+        if m and holds_value(inst, err.get("path") or [], m.group(1), bool(mapper), wrapper):
+            return "required-member-missing-although-set"
     if err.get("branches"):
         keys = {admit_key(b) for b in err["branches"]}
         if len(keys) == 1 and not (keys & {"type", "enum", "required"}):
